@@ -132,6 +132,14 @@ def generate(rng, tier="quick"):
         schema = dict(schema)
         schema["properties"] = dict(schema.get("properties", {}), r={"$ref": target + "#/definitions/x"})
         fs[spath] = {"bytes": b64(json.dumps(schema).encode("utf-8")), "fault": None}
+    many = None
+    if sstate is None and rng.random() < 0.06:
+        # an instance with MANY errors, at a round count (chunked / buffered output code has its edges there)
+        many = rng.choice([10, 16, 32, 50, 64, 100, 100, 128, 200, 256, 500, 512, 1000])
+        schema = {"items": {"type": "null"}}
+        if rng.random() < 0.5:
+            schema["$schema"] = W.METASCHEMA_IDS[draft]
+        fs[spath] = {"bytes": b64(json.dumps(schema).encode("utf-8")), "fault": None}
     n = rng.choice([0, 1, 2, 2, 3, 3, 4, 5, 6, 9])
     use_stdin = n == 0
     fault_kinds = [None] * 10 + ["fs_enoent", "fs_enoent", "fs_torn", "fs_torn", "fs_bitflip", "fs_bitflip",
@@ -148,6 +156,10 @@ def generate(rng, tier="quick"):
                               1234567, -98765.4321, "a fairly long string value, longer than a chunk", [10, 200, 3000],
                               {"a": "{0} {x} {", "b": "100%s %d %", "c": ["}{", "{error.message}"]},
                               ["{file_name}", "%(x)s", {"a": "{}"}]])
+        if many is not None and i == 0:
+            val = [0] * many
+        elif many is not None:
+            val = rng.choice([[], [None], [None, None]])         # the others are valid: status hinges on the big one
         good = json.dumps(val, indent=rng.choice([None, None, 2])).encode("utf-8")
         if rng.random() < 0.1:
             good = json.dumps({"kéy": "väl €", "a": val}, ensure_ascii=False).encode("utf-8")
